@@ -40,6 +40,8 @@ def run(prog, rep, tier):
     r17_4(prog, rep)
     r17_5(prog, rep)
     r17_6(prog, rep)
+    from . import shared
+    shared.dtype_narrowing(prog, rep, "R17.7")
     rep.floor("R17.1", 18)
     rep.floor("R17.3", 8)
     rep.floor("R17.5", 10)
@@ -167,6 +169,15 @@ def r17_1(prog, rep):
     sl = [s for s in walk_local(init.node) if isinstance(s, ast.Assign) and is_self_attr(s.targets[0], "slices")]
     obl(rep, init, sl[0] if sl else init.node, "R17.1", len(sl) == 1 and unparse(sl[0].value) == "{}",
         "GroupEffectsMatrix.__init__ creates an empty slices dict per instance")
+    for cname in ("CommonEffectsMatrix", "GroupEffectsMatrix", "ResponseMatrix", "DesignMatrices"):
+        cls = prog.cls(f"matrices.{cname}")
+        mut = [a for a, v in cls.class_attrs.items() if isinstance(v, (ast.Dict, ast.List, ast.Set)) or (isinstance(v, ast.Call) and dotted(v.func) in ("dict", "list", "set"))]
+        rep.check(not mut, "R17.1", cls.where, cls.qual, f"{cname} has no class-level mutable attribute (slices/terms are per instance)", "",
+                  f"class-level mutable attribute(s) {mut}: every {cname} instance shares them, a second design overwrites the slices of the first")
+    ci = prog.fn("matrices.CommonEffectsMatrix.__init__")
+    sl2 = [s for s in walk_local(ci.node) if isinstance(s, ast.Assign) and is_self_attr(s.targets[0], "slices")]
+    obl(rep, ci, sl2[0] if sl2 else ci.node, "R17.1", len(sl2) == 1 and unparse(sl2[0].value) == "{}",
+        "CommonEffectsMatrix.__init__ creates an empty slices dict per instance", "", "CommonEffectsMatrix.slices is not created per instance in __init__")
     aliased = [s for s in walk_local(f.node) if isinstance(s, ast.Assign) and unparse(s.targets[0]) == "new_instance.slices"]
     obl(rep, f, aliased[0] if aliased else f.node, "R17.1", not aliased,
         "the group matrix never aliases the training slices (widths may change with new groups)", "",
